@@ -23,4 +23,15 @@ func registerProps() {
 			"preemption granularity is between instrumented accesses (fields, written package variables, maps, slice elements reached through them, container/list calls), not machine instructions",
 			"sampling: a clean batch is evidence, not proof"},
 	}
+	props["C14"] = &propDef{
+		id: "C14", salt: 14, gen: gen.C14, quick: 400, thorough: 6000, streams: 4,
+		rule: "one evaluation = one history of 0-8 fix-ups (1-6 segments each: add future block / add before existing records / add inside a festival / replace flag, name or target / remove / remove absent; optional extended names list) and recovered malformed queries, run in a fresh process against the real HolidayUtil and calendar packages; " +
+			"after step 0 and after every step the whole table is compared with a day->record reference model through every view (by day incl. all three APIs, by month, by year, by target incl. absent targets) plus 24 sampled workday walks (|n|<=400) and pay-rate lookups per step. " +
+			"Non-trivial: every run (step 0 alone checks all views of the shipped table). Distinct: by hash of the resolved history and the sampling seed.",
+		real:    libReal,
+		stubbed: []string{"none: single client, no scheduler needed; simrt runs in pass-through (solo) mode, only the lock monitor is active", "holiday table semantics -> reference model (ordered map day -> record) inside the worker"},
+		assume: []string{"weekday of a civil date is taken from Go's time package; lunar month/day and the Qingming term of a day are taken from the library's own conversion (C01/C03/C05 territory)",
+			"a fix-up string never names the same day twice and name lists only extend the list in use (the statement does not define the other cases)",
+			"sampling: a clean batch is evidence, not proof"},
+	}
 }
